@@ -235,7 +235,10 @@ pub fn gen_value(rng: &mut Rng, p: &Profile) -> Val {
         return Val::Bytes(rng.next().to_string().into_bytes());
     }
     if rng.chance(p.big_value_pct as u64, 100) && p.max_value > 256 {
-        let len = rng.range(256, p.max_value as u64) as u32;
+        // one in three at a length where a narrower length field or a buffer size would show
+        const EDGES: [u64; 14] = [4071, 4072, 4095, 4096, 4097, 8192, 32767, 32768, 65535, 65536, 65537, 70000, 131072, 1 << 18];
+        let fits: Vec<u64> = EDGES.iter().copied().filter(|e| *e <= p.max_value as u64).collect();
+        let len = if !fits.is_empty() && rng.chance(1, 3) { fits[rng.usize(fits.len())] as u32 } else { rng.range(256, p.max_value as u64) as u32 };
         return Val::Pattern {
             seed: rng.next() as u32,
             len,
